@@ -214,6 +214,11 @@ var Ops = []Op{
 	{Name: "stray-text-after-blank", Kinds: kAll, Apply: func(l, _ string) ([]string, bool) { return []string{l, "", "not a record"}, true }},
 	{Name: "stray-formfeed-after-blank", Kinds: kAll, Apply: func(l, _ string) ([]string, bool) { return []string{l, "", "\f"}, true }},
 	{Name: "stray-nel-vtab-after-blank", Kinds: kAll, Apply: func(l, _ string) ([]string, bool) { return []string{l, "", "\u0085\v"}, true }},
+	// a carriage return that is not part of a CR LF newline is an ordinary non-blank character
+	repl(kAny, "cr-at-line-end", func(l, _ string) string { return l + "\r" }),
+	repl(kAny, "cr-at-line-start", func(l, _ string) string { return "\r" + l }),
+	repl(kEnt, "cr-after-value", func(l, u string) string { i, v, r := entryParts(l, u); return i + v + "\r" + r }),
+	{Name: "cr-line-before", Kinds: kAny, Apply: func(l, _ string) ([]string, bool) { return []string{"\r", l}, true }},
 	{Name: "delete-line", Kinds: kAny, Apply: func(l, _ string) ([]string, bool) { return []string{}, true }},
 	{Name: "duplicate-line", Kinds: kAny, Apply: func(l, _ string) ([]string, bool) { return []string{l, l}, true }},
 	{Name: "unindented-after", Kinds: kInd, Apply: func(l, _ string) ([]string, bool) { return []string{l, "late summary"}, true }},
